@@ -163,8 +163,8 @@ def step (line : String) : String :=
   | none => "parse-error"
   | some (P, rest) =>
     let wf := if decide (WF P) then "1" else "0"
-    let (tcs, tm) := match tc P with
-      | .ok tm => ("ok", ";".intercalate (tm.map fun p => s!"{p.1}:{showTy p.2}"))
+    let (tcs, tm) : String × String := match tc P with
+      | .ok tm => ("ok", ";".intercalate (tm.map fun (p : Nat × Ty) => s!"{p.1}:{showTy p.2}"))
       | .error e => (showErr e, "")
     let calls := match rest with
       | "calls" :: r =>
